@@ -169,6 +169,10 @@ def random_threadpool_scenario(rng):
 # PreemptibleResource with priorities and preemption (counting clauses only)
 
 class _PWorker(Entity):
+    """acquire(amount, priority, preempt); hold; release -- the holder releases its grant *unconditionally*
+    (also after it was preempted, as in a try/finally clean-up), optionally twice, optionally already inside
+    the on_preempt callback: all of these must be no-ops for a grant whose capacity was taken away."""
+
     def __init__(self, idx, world, spec):
         super().__init__(f"p{idx}")
         self.idx, self.world, self.spec = idx, world, spec
@@ -184,10 +188,13 @@ class _PWorker(Entity):
                 yield W.delay(rnd["pre"])
             cell = {}
 
-            def on_preempt(cell=cell):
+            def on_preempt(cell=cell, rnd=rnd):
                 cell["pre"] = True
                 if "rid" in cell:
                     W.rec("rel", cell["rid"])      # evicted: the capacity is taken away here
+                    if rnd.get("rel_in_cb") and "grant" in cell:
+                        cell["grant"].release()   # clean-up inside the callback: nothing left to return
+                        W.rec("xrel", cell["rid"])
             fut = res.acquire(amount=rnd["a"], priority=float(rnd["prio"]), preempt=rnd["preempt"],
                               on_preempt=on_preempt)
             W.nreq += 1
@@ -199,12 +206,22 @@ class _PWorker(Entity):
             else:
                 W.rec("grant", rid)
             grant = yield fut
+            cell["grant"] = grant
             W.rec("got", rid)
+            W.gt[rid] = W.sim._clock.now.nanoseconds // W.tick_ns
             for d in rnd["holds"]:
                 yield W.delay(d)
-            if not grant.preempted:
+            if rnd.get("guarded") and grant.preempted:
+                continue                          # the careful holder: `if not grant.preempted: release()`
+            was_preempted = bool(cell.get("pre"))
+            grant.release()
+            W.rec("xrel" if was_preempted else "rel", rid)
+            W.scan()
+            for d in rnd.get("again", ()):        # late / repeated release of the same grant
+                if d:
+                    yield W.delay(d)
                 grant.release()
-                W.rec("rel", rid)
+                W.rec("xrel", rid)
                 W.scan()
         return None
 
@@ -285,15 +302,35 @@ class PreemptWorld:
 
 def random_preempt_scenario(rng):
     nw = rng.randint(2, 7)
-    cap = rng.choice((1, 2, 3, 4))
+    cap = rng.choice((1, 1, 2, 3, 4))
     burst = rng.random() < 0.4
     ws = []
     for _ in range(nw):
-        rounds = [{"pre": rng.choice((0, 0, 1)), "a": rng.randint(1, cap), "prio": rng.choice((0, 1, 2, 3)),
-                   "preempt": rng.random() < 0.7, "holds": [rng.choice((0, 1, 2, 3))]}
-                  for _ in range(rng.choice((1, 1, 2)))]
+        rounds = []
+        for _ in range(rng.choice((1, 1, 2))):
+            rnd = {"pre": rng.choice((0, 0, 1)), "a": rng.randint(1, cap), "prio": rng.choice((0, 1, 2, 3)),
+                   "preempt": rng.random() < 0.7, "holds": [rng.choice((0, 1, 2, 3, 5))]}
+            r = rng.random()
+            if r < 0.15:
+                rnd["guarded"] = True
+            if rng.random() < 0.3:
+                rnd["again"] = [rng.choice((0, 0, 1, 3)) for _ in range(rng.randint(1, 2))]
+            if rng.random() < 0.2:
+                rnd["rel_in_cb"] = True
+            rounds.append(rnd)
         ws.append({"arr": 0 if burst else rng.randint(0, 4), "rounds": rounds})
     order = list(range(nw))
     rng.shuffle(order)
     return {"prim": "PreemptibleResource+prio", "cap": cap, "tick_ns": rng.choice((10**6, 10**3, 10**9)),
             "order": order, "workers": ws}
+
+
+def preempt_scenario_from_model(cap, amt, prio, pre, arr, hold, tick_ns, order=None, again=False):
+    """scenario of the Preempt.tla envelope: every holder releases unconditionally after its hold"""
+    ws = []
+    for i in range(len(amt)):
+        rnd = {"pre": 0, "a": amt[i], "prio": prio[i], "preempt": bool(pre[i]), "holds": [hold[i]]}
+        if again:
+            rnd["again"] = [0, 1]
+        ws.append({"arr": arr[i], "rounds": [rnd]})
+    return {"prim": "PreemptibleResource+prio", "cap": cap, "tick_ns": tick_ns, "order": order, "workers": ws}
